@@ -70,5 +70,6 @@ FULL = {
    note=BASE_NOTE,
    technique=TECH),
 }
-PENDING = ['C01', 'C04', 'C05', 'C06', 'C07', 'C08', 'C09', 'C10', 'C12']
+CLAIMED.update(FULL)
+PENDING = []
 NOT_APPLICABLE = {p: 'not yet claimed: the model, the correspondence check and the oracles for this property run (bin/check %s), but its Coq theorems for the AVL trees are still being proved in this session; it will be claimed when Properties/%s.v is complete' % (p, p) for p in PENDING}
